@@ -9,7 +9,7 @@ WT="$(mktemp -d /tmp/aspire-mut.XXXXXX)"
 git -C /repo worktree add --detach -q "$WT" HEAD >/dev/null 2>&1 || { echo "ERROR worktree"; exit 2; }
 cleanup() { git -C /repo worktree remove --force "$WT" >/dev/null 2>&1; rm -rf "$WT"; }
 trap cleanup EXIT
-if ! git -C "$WT" apply "$PATCH" 2>/tmp/apply.err; then echo "ERROR patch does not apply: $(cat /tmp/apply.err | head -3)"; exit 2; fi
+if ! git -C "$WT" apply "$PATCH" 2>/tmp/apply.err && ! git -C "$WT" apply --3way "$PATCH" 2>>/tmp/apply.err && ! (cd "$WT" && patch -p1 -F3 -s < "$PATCH" >>/tmp/apply.err 2>&1); then echo "ERROR patch does not apply: $(cat /tmp/apply.err | head -3)"; exit 2; fi
 OUT="$(mktemp /tmp/mut-out.XXXXXX)"
 # evidence/replays of a mutant run must not overwrite the real ones: run from a scratch copy of /verif's code
 SCR="$(mktemp -d /tmp/verif-scr.XXXXXX)"
